@@ -49,6 +49,14 @@ pub proof fn lemma_nbits_set(x: u128, y: u128, i: int, n: int)
 {
     if n > 0 { lemma_nbits_set(x, y, i, n - 1); }
 }
+// the count depends only on the bits below n
+pub proof fn lemma_nbits_ext(x: u128, y: u128, n: int)
+    requires 0 <= n <= 128, forall|j: int| 0 <= j < n ==> bit(x, j) == bit(y, j),
+    ensures nbits(x, n) == nbits(y, n),
+    decreases n,
+{
+    if n > 0 { lemma_nbits_ext(x, y, n - 1); }
+}
 // no bit set below n  <==>  the count is zero
 pub proof fn lemma_nbits_none(x: u128, n: int)
     requires 0 <= n <= 128, nbits(x, n) == 0,
